@@ -22,9 +22,9 @@ ALL = {
          "Every string classified Invalid (with a reason code) is rejected; exhaustive over the short-string families, sampled over single-edit mutants. Strings in the unsettled zones (U1, U2, undefined function names) are not judged.", "4/C07"),
  "C10": ("runtime monitor: function sweeps vs reference evaluator with regex oracle; H4 function-application events checked against each function's definition",
          "Held on every execution produced: length/count/value over every JSON type and node-list shape, match/search over a pattern grammar x all short subject strings (pattern as literal and from the document, both polarities, invalid patterns, non-strings); each application observed through H4 agrees with the definition.", "4/C10"),
- "C11": ("exhaustive runtime monitor of the slice/index cube in isolated workers under release and overflow-checked builds; CPU-time termination watchdog",
+ "C11": ("exhaustive runtime monitor of the slice/index cube in nine contexts, large-array slices, ragged tables and results beyond 2^20 nodes, in isolated workers under release and overflow-checked builds; CPU-time termination watchdog",
          "Exhaustive over the stated (length, start, end, step) cube and index range in several contexts, parsed and programmatic, plus extremes at the edge of the I-JSON range; results equal RFC 9535 2.3.4.2.2 (i128 transcription), no panic in the overflow-checked build, every case terminates within its CPU budget.", "4/C11"),
- "C08": ("crash / CPU-time monitor: isolated worker processes (BEGIN/END case log, deaths attributed to the open case, CPU-time budget from /proc) under release and overflow-checked builds on an 8 MiB stack; nesting ladders",
+ "C08": ("crash / CPU-time monitor: isolated worker processes (BEGIN/END case log, deaths attributed to the open case, CPU-time budget from /proc) under release and overflow-checked builds on an 8 MiB stack (flat chains on 2 MiB), required ladder rungs also in an unoptimised build, blocked workers detected (no CPU for 30 s); nesting ladders",
          "Held on every execution produced: valid/near-valid/arbitrary strings, extreme integers at every integer position, programmatic queries, hostile documents, regex stress and nesting ladders through every public entry point; no panic, no worker death, no case above 30 CPU-seconds, no Err from evaluating a parsed query. Required nesting bounds are enforced; failures beyond them are explored and compared with recorded known findings.", "4/C08"),
  "C09": ("runtime monitor: reference/reference_mut vs the address map and a location-based model update (frame condition), non-existent paths, update histories",
          "Held on every execution produced: every location of small exhaustive, hostile-name, curated and random documents resolves to exactly its node; ten kinds of non-existent paths answer None; writes through reference_mut equal our own update of a copy (nothing else changed); random update histories over all paths of a query stay equal to the model.", "4/C09"),
@@ -32,7 +32,7 @@ ALL = {
          "Held on every execution produced: the four entry points agree position by position incl. errors; every occurrence of a pair in random histories (built to collide under plausible cache keys) and in 2-16-thread schedules equals the result a fresh process computes; the document is unchanged. Schedules are sampled, not enumerated (distinct interleavings counted in the evidence).", "4/C12"),
  "C13": ("oracle-free runtime monitor: results (node addresses) of every RFC-equivalent spelling of one AST compared with the canonical spelling",
          "Held on every execution produced: curated and random ASTs rendered in every equivalent spelling (name styles, wildcard forms, parentheses, quotes, escapes, every S slot x each blank, all 3^k blank combinations for k <= 6, number spellings) select the same nodes in the same order as the canonical spelling.", "4/C13"),
- "C15": ("differential runtime monitor between instantiations of the generic engine: serde_json::Value vs two further Queryable implementations (and a re-ordered view vs the reference evaluator)",
+ "C15": ("differential runtime monitor between instantiations of the generic engine: serde_json::Value vs three further Queryable implementations (strict int/float accessors with 120-byte nodes; all numbers f64; shared subtrees with a tolerant PartialEq) and a re-ordered view vs the reference evaluator",
          "Held on every execution produced: the same queries over VecJson (strictly separate int/float accessors, ordered members, Default != null) and F64Json (all numbers f64) give the same paths and deep-equal values as over serde_json::Value; a view with another member order agrees with the reference evaluator over that view.", "4/C15"),
  "C14": ("exhaustive runtime monitor over all pairs of small arrays; complement laws on observed results; H4 events",
          "Exhaustive over all 156^2 ordered pairs of arrays of length <= 3 over a 5-element universe x 5 functions (plus value sweeps, nested random arrays, missing and non-array arguments); truth values equal the set-theoretic definitions, complement laws hold, ill-typed calls are false.", "4/C14"),
